@@ -278,3 +278,25 @@ MUTANTS.setdefault('C17', []).extend([
     ('virtio-wv-count-not-updated', _VV, "            count += self.write(buf)?;", "            let _n = self.write(buf)?;"),
     ('virtio-write-obj-drops-first-byte', _VV, "        self.write_all(val.as_slice())", "        self.write_all(&val.as_slice()[1..])"),
 ])
+
+# the pseudo file system (unit pseudofs; proposed and tried by the sub-agent that built it)
+_PF = 'src/api/pseudo_fs.rs'
+MUTANTS.setdefault('C07', []).extend([
+    ('pseudo-mount-under-root', _PF, "let new_node = self.create_inode(name, inode);", "let new_node = self.create_inode(name, &self.root_inode);"),
+    ('pseudo-walk-missing-is-some', _PF, "return Ok(None);", "return Ok(Some(inode.ino));"),
+    ('pseudo-new-inode-reuses-number', _PF, "self.next_inode.fetch_add(1, Ordering::Relaxed)", "self.next_inode.fetch_add(0, Ordering::Relaxed)"),
+    ('pseudo-create-not-linked', _PF, "        self.insert_inode(inode.clone());\n        parent.insert_child(inode.clone());", "        self.insert_inode(inode.clone());"),
+    ('pseudo-remove-inode-wrong-key', _PF, "hashmap.remove(&inode.ino);", "hashmap.remove(&inode.parent);"),
+    ('pseudo-lookup-dotdot-is-self', _PF, "ino = pinode.parent;", "ino = pinode.ino;"),
+    ('pseudo-entry-not-dir', _PF, "attr.mode = libc::S_IFDIR | libc::S_IRWXU", "attr.mode = libc::S_IFREG | libc::S_IRWXU"),
+    ('pseudo-first-number-is-root', _PF, "const PSEUDOFS_NEXT_INODE: u64 = 2;", "const PSEUDOFS_NEXT_INODE: u64 = 1;"),
+])
+MUTANTS.setdefault('C16', []).extend([
+    ('pseudo-readdir-skip-on-full', _PF, "Ok(0) => break,", "Ok(0) => next += 1,"),
+    ('pseudo-readdir-resume-skips-one', _PF, "children[offset as usize..]", "children[offset as usize + 1..]"),
+    ('pseudo-readdir-wrong-ino', _PF, "                ino: child.ino,\n                offset: next,", "                ino: inode.ino,\n                offset: next,"),
+    ('pseudo-readdir-err-swallowed', _PF, "Err(r) => return Err(r),", "Err(_) => break,"),
+    ('pseudo-readdir-ignores-offset', _PF, "self.do_readdir(inode, size, offset, add_entry)", "self.do_readdir(inode, size, 0, add_entry)"),
+    ('pseudo-readdir-offset-added-before-check', _PF, "        let children = inode.children.load();\n\n        if offset >= children.len() as u64 {\n            return Ok(());\n        }\n        // `offset` comes from the client: only add to it once it is known to be an index.\n        let mut next = offset + 1;\n", "        let mut next = offset + 1;\n        let children = inode.children.load();\n\n        if offset >= children.len() as u64 {\n            return Ok(());\n        }\n"),
+    ('pseudo-readdir-foreign-type', _PF, "                type_: 0,", "                type_: 8,"),
+])
